@@ -4,7 +4,7 @@
 # change; demo fails with it and passes without), runs the property's quick
 # check against it, and archives it under /verif/seeded/<PROP>-<mN>/.
 set -u
-P=$1; M=$2; SRC=/tmp/seedout/$P
+P=$1; M=$2; SRC=${SEED_SRC:-/tmp/seedout}/$P; TAG=${SEED_TAG:-}
 DIFF=${3:-$SRC/$M.diff}
 export GOFLAGS=-mod=mod GOPROXY=off GOSUMDB=off GOTOOLCHAIN=local
 WT=/tmp/confirm-$P-$M
@@ -23,22 +23,21 @@ if ! git -C $WT apply -3 $DIFF 2>/dev/null; then echo "$P $M: patch does not app
 ( cd $WT && go test -vet=off -count=1 ./$pkg -run 'Demo|ZzDemo' >/tmp/confirm1.out 2>&1 ); r1=$?
 rm $WT/$place
 ( cd $WT && go build ./... && go test -vet=off -count=1 ./... >/tmp/confirm2.out 2>&1 ); r2=$?
-( cd $WT && git diff HEAD -- . ':!*_test.go' ) > /tmp/confirm.diff
-git -C /repo worktree remove --force $WT
+( cd $WT && git diff HEAD -- . ':!*_test.go' ) > /tmp/confirm-$P-$M.diff
 echo "$P $M: demo-without=$r0 demo-with=$r1 suite-with=$r2"
-if [ $r0 -ne 0 ] || [ $r1 -eq 0 ] || [ $r2 -ne 0 ]; then echo "$P $M: NOT CONFIRMED"; exit 1; fi
-# run our check against it
-git -C /repo apply /tmp/confirm.diff || exit 2
-out=$(cd /verif && VERIF_BUDGET_MIN=12 timeout 1200 ./bin/gosym check $P quick 2>&1); rc=$?
-git -C /repo checkout HEAD -- .
+if [ $r0 -ne 0 ] || [ $r1 -eq 0 ] || [ $r2 -ne 0 ]; then echo "$P $M: NOT CONFIRMED"; git -C /repo worktree remove --force $WT; exit 1; fi
+# run our check against the scratch worktree (the change is applied there; /repo is untouched)
+mkdir -p /tmp/seed-evidence
+out=$(cd /verif && VERIF_REPO=$WT VERIF_EVIDENCE_DIR=/tmp/seed-evidence VERIF_BUDGET_MIN=12 timeout 1200 ./bin/gosym check $P quick 2>&1); rc=$?
+git -C /repo worktree remove --force $WT
 caught=no; [ $rc -eq 1 ] && caught=yes
 labels=$(echo "$out" | grep 'violation:' | sed 's/.*harness=\([A-Za-z0-9_]*\).*/\1/' | sort -u | tr '\n' ' ')
-D=/verif/seeded/$P-$M; mkdir -p $D
-cp /tmp/confirm.diff $D/patch.diff; cp $demo $D/demo_test.go; cp $SRC/$M.md $D/notes.md 2>/dev/null
-python3 - "$P" "$M" "$place" "$caught" "$rc" "$labels" <<'PY'
+D=/verif/seeded/$P-$M$TAG; mkdir -p $D
+cp /tmp/confirm-$P-$M.diff $D/patch.diff; cp $demo $D/demo_test.go; cp $SRC/$M.md $D/notes.md 2>/dev/null
+python3 - "$P" "$M$TAG" "$place" "$caught" "$rc" "$labels" <<'PY'
 import json,sys,subprocess
 P,M,place,caught,rc,labels=sys.argv[1:7]
-notes=open(f'/verif/seeded/{P}-{M}/notes.md').read() if True else ''
+notes=open(f'/verif/seeded/{P}-{M}/notes.md').read()
 meta={"property":P,"id":f"{P}-{M}","demo_placement":place,
  "breaks":"see notes.md (written by the independent sub-agent that produced the change from the property text alone)",
  "needs_to_manifest":notes[:1200],
